@@ -6,6 +6,7 @@ from ..linear import linear, relation, fmt, rel_str
 from ..symb import eval3
 from ..charclass import byteset, describe, CTYPE
 from .common import strip_casts, short, comparison, member_funcs, gated_by, after_result
+from ..symb import feasible_reach
 
 UNITS = []
 DRIVERS = ['propagators.cc']
@@ -205,22 +206,21 @@ def rule_r3_copy(ck, prog, cls='trace::TraceState', rule='C14.R3', api='KeyValue
             if not adds:
                 continue
 
-            def differs_edge(a, b, lab):
-                if not lab or not isinstance(lab[0], int):
-                    return False
-                core, pol = norm_cond(lab[1], lab[0])
-                cn = lab[1].nodes[core]
-                truth = lab[2] if pol else (not lab[2])
-                if cn['k'] == 'call' and cn.get('op') in ('==', '!='):
-                    ops = ([cn['obj']] if cn.get('obj') is not None else []) + cn.get('args', [])
-                    names = {lf.nodes[i]['name'] for o in ops for i in lf.subtree(o) if lf.nodes[i]['k'] == 'ref'}
-                    if key['name'] in names and lf.params[0]['name'] in names:
-                        return truth is (cn['op'] == '!=')
-                # the "nothing is inserted, copy everything" flag of Set
-                if cn['k'] == 'ref' and cn.get('cap') and 'bool' in (cn.get('t') or ''):
-                    return truth is False
-                return False
-            ok = all(lg.must_pass_edge(p, differs_edge) for p in adds)
+            # decision table: the comparison of the entry's key with the given key is pinned to "equal" and the captured "a member
+            # is inserted" flag of Set to true: the entry must not be copied; with "different" it must be
+            def pins_for(equal):
+                pins = {}
+                for cn in lf.nodes:
+                    if cn['k'] == 'call' and cn.get('op') in ('==', '!='):
+                        ops = ([cn['obj']] if cn.get('obj') is not None else []) + cn.get('args', [])
+                        names = {lf.nodes[i_]['name'] for o in ops for i_ in lf.subtree(o) if lf.nodes[i_]['k'] == 'ref'}
+                        if key['name'] in names and lf.params[0]['name'] in names:
+                            pins[cn['i']] = equal if cn['op'] == '==' else (not equal)
+                    elif cn['k'] == 'ref' and cn.get('cap') and 'bool' in (cn.get('t') or ''):
+                        pins[cn['i']] = True
+                return pins
+            ok = bool(pins_for(True)) and feasible_reach(lg, [lg.entry], adds, pins=pins_for(True)) is None and \
+                feasible_reach(lg, [lg.entry], adds, pins=pins_for(False)) is not None
             why = 'the copy callback adds every existing entry unconditionally'
         ck.verdict(ok, rule, f, '%s:copy-excludes-key' % name, None, 'existing entries are copied only when their key differs from the given key' if ok else
                    '%s: %s: the old entry of the key survives next to the new one (duplicate member)' % (name, why) if name == 'Set' else '%s: %s: the key is not removed' % (name, why))
